@@ -51,7 +51,17 @@ def scenario_amo():
     fs0 = {"a": dict(t="file", c="0"), "o1": dict(t="none", c="")}
     return finish_case(dict(nodes=nodes, fs0=fs0, steps=[("frontend", d0, True, True), ("build", "t"), ("write", "a", "1"), ("build", "t")]))
 
-SCENARIOS = {"C08": [("amo-input-change", scenario_amo, "C08 allow-modified-outputs: input change not rebuilt")]}
+def scenario_structfile():
+    """S32: a directory-structure input with exclusion patterns whose path is a regular file; the file is rewritten"""
+    from bslib import node, cmd, make_desc, finish_case
+    nodes = {n: node("file", n) for n in ["a", "od"]}
+    nd = node("dirstruct", "d", [".*"]); nd["spell"] = "type"; nodes["d/"] = nd
+    d0 = make_desc(dict(cd=cmd(ins=["d/", "a"], outs=["od"], tag="cd")), dict(t=["od"]))
+    fs0 = {"a": dict(t="file", c="0"), "d": dict(t="file", c="0"), "od": dict(t="none", c="")}
+    return finish_case(dict(nodes=nodes, fs0=fs0, steps=[("frontend", d0, True, True), ("build", "t"), ("write", "d", "1"), ("build", "t"),
+                                                         ("frontend", d0, True, True), ("touch", "d"), ("build", "t")]))
+
+SCENARIOS = {"C12": [("structure-of-a-file", scenario_structfile, "C12 filtered structure signature of a non-directory")], "C08": [("amo-input-change", scenario_amo, "C08 allow-modified-outputs: input change not rebuilt")]}
 
 def run_scenarios(pid, binary, wd):
     out = []
